@@ -250,10 +250,44 @@ def _has_proxy_str(x):
     return not isinstance(x, (str, int, float, bool, type(None), _decimal.Decimal))
 
 
+def _concat_parts(t):
+    """flatten a z3 string term into literal / symbolic pieces"""
+    if z3.is_app(t) and t.decl().kind() == z3.Z3_OP_SEQ_CONCAT:
+        out = []
+        for c in t.children():
+            out.extend(_concat_parts(c))
+        return out
+    if z3.is_string_value(t):
+        return [t.as_string()]
+    return [t]
+
+
 def vf_mod(a, b):
+    if isinstance(a, SymStr):
+        # a template built from symbolic text: CPython scans every character of it for conversions.  The literal
+        # pieces are formatted as usual; a symbolic piece either contains no '%' (then it is plain text) or it
+        # does, and then the conversion is malformed or consumes arguments: the format operation raises
+        # (ValueError / TypeError) or silently rewrites the text -- modelled as ValueError.
+        pieces = _concat_parts(a.t)
+        for pc in pieces:
+            if not isinstance(pc, str):
+                if ctx().decide(z3.Contains(pc, z3.StringVal("%"))):
+                    raise ValueError("unsupported format character in a template built from input text")
+        out = ""
+        args = b if isinstance(b, tuple) else (b,)
+        k = 0
+        for pc in pieces:
+            if isinstance(pc, str):
+                n = len([m for m in __import__("re").finditer(r"%[^%]", pc)])
+                piece = vf_mod(pc, tuple(args[k:k + n]) if n != 1 else args[k]) if n or "%%" in pc else pc
+                k += n
+                out = out + piece
+            else:
+                out = out + SymStr(pc)
+        if k != len(args):
+            raise TypeError("not all arguments converted during string formatting")
+        return out
     if not isinstance(a, str):
-        if isinstance(a, SymStr):
-            raise EngineUnsupported("% with symbolic template")
         return a % b
     args = b if isinstance(b, tuple) else (b,)
     if all(isinstance(x, (str, int, float, bool, type(None), _decimal.Decimal)) for x in args):
